@@ -109,9 +109,10 @@ class PathManager:
 
     current: Optional["PathManager"] = None
 
-    def __init__(self, precondition: Optional[list] = None, max_paths: int = 10000, timeout_ms: int = 5000):
+    def __init__(self, precondition: Optional[list] = None, max_paths: int = 10000, timeout_ms: int = 5000, budget_s: float = 600.0):
         self.precondition = list(precondition or [])
         self.max_paths = max_paths
+        self.budget_s = budget_s  # wall-clock budget of one exploration (a truncated exploration is reported, never a success)
         self.timeout_ms = timeout_ms
         self.paths = 0
         self.truncated = False
@@ -179,9 +180,12 @@ class PathManager:
         self.worklist: list[list[bool]] = [[]]
         prev = PathManager.current
         PathManager.current = self
+        import time as _time
+
+        deadline = _time.time() + self.budget_s
         try:
             while self.worklist:
-                if self.paths >= self.max_paths:
+                if self.paths >= self.max_paths or _time.time() > deadline:
                     self.truncated = True
                     break
                 prefix = self.worklist.pop()
